@@ -141,7 +141,7 @@ class _Proxy:
 
 
 def _fresh():
-  sv = svc.new_servicer()
+  sv = svc.new_servicer(pythia=svc.StubPythia(stateful=True))   # algorithm state lives in study metadata (as GRID_SEARCH)
   svc.add_study(sv, state=1)
   sv.datastore.create_trial(svc.make_trial(1, ACTIVE, client='w', n_meas=1))
   sv.datastore.create_trial(svc.make_trial(2, REQUESTED))
